@@ -30,7 +30,8 @@ TRUSTED = ["vf/crc.py", "vf/tok.py", "vf/ic10_isa.py ISA table (operand position
 def plan(tier, seed):
     q = tier == "quick"
     nenum = sum(len(v) for v in E.live().values())
-    tasks = pool.batches("gen", 900 if q else 12000, 20) + pool.batches("corpus", len(workload.corpus()), 4) + pool.batches("strings", 1500 if q else 20000, 50) + pool.batches("enums", (nenum + 7) // 8, 10)
+    nslot = (len(_slot_lines()) + 9) // 10
+    tasks = pool.batches("slots", nslot, 5) + pool.batches("gen", 900 if q else 12000, 20) + pool.batches("corpus", len(workload.corpus()), 4) + pool.batches("strings", 1500 if q else 20000, 50) + pool.batches("enums", (nenum + 7) // 8, 10)
     return dict(tasks=tasks, nworkers=14, time_cap=80 if q else 800)
 
 
@@ -67,9 +68,72 @@ def _enum_members():
     return _ENUM_LIST
 
 
+_SLOT_LINES = None
+
+
+def _slot_lines():
+    """one read per (slot class, slot logic type), singular and plural, taken from the live structure tables"""
+    global _SLOT_LINES
+    if _SLOT_LINES is None:
+        H.repo()
+        from stationeers_pytrapic import structures_generated as SG
+        from stationeers_pytrapic import types as T
+
+        seen = set()
+        out = []
+        for n, c in sorted(vars(SG).items()):
+            if isinstance(c, type) and issubclass(c, T._BaseStructure) and c is not T._BaseStructure and getattr(c, "_prefab_name", None):
+                o = c("d0")
+                for a in dir(o):
+                    if a.startswith("_"):
+                        continue
+                    try:
+                        v = getattr(o, a)
+                    except Exception:
+                        continue
+                    if isinstance(v, T._BaseSlotType):
+                        for b in dir(v):
+                            if b.startswith("_"):
+                                continue
+                            try:
+                                w = getattr(v, b)
+                            except Exception:
+                                continue
+                            if isinstance(w, T._DeviceSlotType) and (type(v).__name__, b) not in seen:
+                                seen.add((type(v).__name__, b))
+                                out.append(f"db.Setting = {n}(d1).{a}.{b}")
+        plural = {nm: o for nm, o in vars(SG).items() if isinstance(o, T._BaseStructures)}
+        seenp = set()
+        for nm, p in sorted(plural.items()):
+            for a in dir(p):
+                if a.startswith("_") or a in ("Average", "Sum", "Minimum", "Maximum"):
+                    continue
+                try:
+                    v = getattr(p, a)
+                except Exception:
+                    continue
+                if isinstance(v, T._BaseSlotTypes):
+                    for b in dir(v):
+                        if b.startswith("_"):
+                            continue
+                        try:
+                            w = getattr(v, b)
+                        except Exception:
+                            continue
+                        if isinstance(w, T._DevicesSlotType) and (type(v).__name__, b) not in seenp:
+                            seenp.add((type(v).__name__, b))
+                            out.append(f"db.Mode = {nm}.{a}.{b}.Sum")
+        _SLOT_LINES = out
+    return _SLOT_LINES
+
+
 def gen_case(task, i):
     st = task["stream"]
     r = rng(seed_env(), ID, st, i, "v")
+    if st == "slots":
+        lines = _slot_lines()[i * 10 : i * 10 + 10]
+        o = dict(append_version=False, remove_labels=bool(i & 1), inline_functions=True, original_code_as_comment=False, generated_comments=False, tail_call_optimization=False, use_push_pop_functions=False)
+        return dict(src=HEADER + "\n".join(lines) + "\n", options=o, stream=st)
     o = dict(append_version=False, remove_labels=r.random() < 0.5, inline_functions=r.random() < 0.6, original_code_as_comment=False, generated_comments=False, tail_call_optimization=False, use_push_pop_functions=r.random() < 0.3)
     if st == "gen":
         src = workload.gen_program(ID, st, i)[0]["src"]
